@@ -32,7 +32,7 @@ def interpret_left(left):
     """-> (settings dict, error).  Flags may be clustered (-Cp); valued options take
     the next word, which must not look like an option."""
     st = {'no_color': False, 'color': False, 'supress': False, 'verbose': False, 'pipe': False,
-          'filter': None, 'break': None, 'load': None, 'libwayland': None}
+          'filter': None, 'break': None, 'load': None, 'libwayland': None, 'repeated': []}
     i = 0
     while i < len(left):
         w = left[i]
@@ -44,6 +44,9 @@ def interpret_left(left):
             v = left[i + 1]
             if v.startswith('-') and ' ' not in v and len(v) > 1:
                 return None, 'value of %s looks like an option: %s' % (w, v)
+            if st[VALUED[w]] is not None:
+                # an option given twice: whether the last value counts or the values add up is not specified
+                st['repeated'].append((VALUED[w], st[VALUED[w]]))
             st[VALUED[w]] = v
             i += 1
         elif is_cluster(w) and all(('-' + ch) in FLAGS for ch in w[1:]):
